@@ -11,7 +11,7 @@ CORE = ('TLC explores every interleaving of small configurations of the explicit
         'A violation is reported only after the failing schedule was re-executed on the real code and the formula failed again. ')
 NOTE = ('bounded: 2-3 jobs and 1-3 clients in the exhaustive models, <= 12 jobs per recorded execution; exhaustive at the granularity of the '
         'vhook() points (finer interleavings only through the free-running executions); conformance is sampled; trusts TLC, the gate scheduler '
-        '(GOMAXPROCS(1) children), the Go runtime goroutine-state strings used for quiescence detection, and the hand-written reconstruction of the history in Obs.tla')
+        '(GOMAXPROCS(1) children; the log line of a hook and the action it marks are not one atomic step, so under heavy load a recorded order can differ from the real one by one position: such a trace is reported as an informational DIVERGENCE, never as a violation), the Go runtime goroutine-state strings used for quiescence detection, and the hand-written reconstruction of the history in Obs.tla')
 SPEC = {
  'C01': 'Formulas C01_* (at most once, never after rejection/cancel, identity, all executed at rest).',
  'C02': 'Formulas C02_* over worker-function entries/exits against the largest limit possibly in effect.',
@@ -19,15 +19,15 @@ SPEC = {
  'C04': 'Additionally spec/QueueDS.tla: the chunked FIFO transcribed and model-checked against a plain sequence (refinement), the priority order as min (priority, insertion); operation logs of the real queues (small and real segment capacities, crossing 1024/2560/4864) validated with spec/TraceDS.tla; worker level: C04_DequeueOrder / C04_SerialOrder.',
  'C05': 'Formulas C05_* (handles never return early; nobody sleeps on finished work at rest).',
  'C06': 'Formulas C06_* (WaitUntilFinished exact w.r.t. the jobs accepted before the call; PauseAndWait/Stop/WaitAndStop return with nothing in flight; no barrier caller asleep at rest).',
- 'C07': 'Formulas C07_* over Result()/Err() values derived from the job key, repeated calls, failure counts, crash events of the child processes.',
- 'C08': 'Formulas C08_* over everything read from a batch stream, its close, NumPending samples and crash events (double close). The batch mechanics are not in VarMQ.tla yet: model checking does not cover batches, the verdict comes from the TLC-evaluated trace formulas.',
+ 'C07': "Formulas C07_* over Result()/Err() values derived from the job key, repeated calls, failure counts, crash events of the child processes; on the model the wrapper's outcome plumbing (per-job Response, metrics) is part of VarMQ.tla (configurations result, batch0, batch).",
+ 'C08': 'Formulas C08_* over everything read from a batch stream, its close, NumPending samples and crash events (double close). On the model the batch mechanics (WgCounter compare-and-swap, shared stream, close by the one call that reaches zero, rejected items, empty batch) are part of VarMQ.tla: C08_CloseOnce / C08_Closes on configurations batch, batch0, batchpurge, liveness on batch.',
  'C09': 'Formulas C09_* (no worker-function entry in a closed epoch; at most conc entries after a plain Pause).',
  'C10': 'Formulas C10_* (Close wins or reports ErrJobProcessing/ErrJobAlreadyClosed, nothing silently dropped by Purge, closed queue rejects, no crash).',
- 'C11': 'A recording adapter logs every Enqueue/DequeueWithAckId/Acknowledge; C11_* are state invariants of the adapter log, hence evaluated at every prefix = crash point; executions are additionally cut at random steps and a fresh worker is bound to the adapter\'s durable state (C11_Recovery). The adapter protocol is not in VarMQ.tla: the verdict comes from the TLC-evaluated trace formulas.',
- 'C12': 'Isolation of undecodable/foreign/closed entries by C12_* on adapter traces; payload and id fidelity by generated values of ten Go types through the four adapter bind methods, each comparison logged and judged by C12_Codec. TLA+ cannot enumerate encoding/json values: that part is generated-input exploration with the trace formula as oracle.',
- 'C13': 'Several workers on one recording adapter; C13_* (exactly one execution per entry, all processed, one Submitted per notification, per-consumer bound).',
- 'C14': 'spec/Lifecycle.tla is the reference machine; every sequence of lifecycle calls up to length 3 (quick) / 4 (thorough) plus random longer ones is executed and each result/status compared by C14_*; VarMQ.tla model configurations cover Stop/Restart/context-listener interleavings.',
- 'C15': 'spec/QueueDS.tla part (c) + MC_manager.tla (round-robin fairness model-checked); every length vector over 0..3 for 1..4 queues and every cursor replayed against the real Manager and validated with TraceDS.tla; worker level: C15_Choice over the gated dequeue order.',
+ 'C11': "A recording adapter logs every Enqueue/DequeueWithAckId/Acknowledge; C11_* are state invariants of the adapter log, hence evaluated at every prefix = crash point; executions are additionally cut at random steps and a fresh worker is bound to the adapter's durable state (C11_Recovery). On the model the acknowledging adapter (delivery ids, faults, a Crash action enabled in every state) is part of VarMQ.tla (configurations adapter, adapterfault, crash, crash2: C11_AckAfter, C11_AckIssued, C11_NoLoss, C11_Recovery), and spec/Dist.tla states the acknowledgement discipline across several consumers.",
+ 'C12': 'Isolation of undecodable/foreign/closed entries by C12_* on adapter traces (and C12_NoBadRun on spec/Dist.tla, where bad entries are delivered, reported and skipped); payload and id fidelity by generated values of ten Go types through the four adapter bind methods, each comparison logged and judged by C12_Codec. TLA+ cannot enumerate encoding/json values: that part is generated-input exploration with the trace formula as oracle.',
+ 'C13': 'spec/Dist.tla models the protocol between several workers on one shared adapter (pending list, subscriber list and notifications, per consumer the coalescing wake-up signal, the dispatcher pass with a dequeue another consumer may win, acknowledge, binding as Register/Subscribe/start): TLC checks exactly-one execution, no loss, everything processed at rest, one Submitted per notification, and liveness; two sensitivity configurations (the bind order before fix c889587, a pass that ends on a failed dispatch) must be reported as violated. Recorded executions of 2-3 real workers on one recording adapter are validated against it (spec/TraceDist.tla) and judged by C13_* of Obs.tla.',
+ 'C14': 'spec/Lifecycle.tla is the reference machine; every sequence of lifecycle calls up to length 3 (quick) / 4 (thorough) plus random longer ones is executed and each result/status compared by C14_*; VarMQ.tla model configurations cover Stop/Restart/context-listener interleavings and Bind as a client call of an unbound worker (configurations bind, bindstop, bindctx: C14_BindKeepsState).',
+ 'C15': 'Several queues per worker are part of VarMQ.tla (queue manager cursor, the three strategies, Bind): MC_multi.tla checks C15_Fair (equal round-robin share while all queues stay non-empty) and C15_Choice (every dispatch takes the head of a queue the strategy allows) over all interleavings of producers, purges and the dispatcher; spec/QueueDS.tla part (c) + MC_manager.tla check the selection functions alone; every length vector over 0..3 for 1..4 queues and every cursor replayed against the real Manager and validated with TraceDS.tla; gated multi-queue executions are validated against VarMQ.tla and judged by C15_* of Obs.tla.',
  'C16': 'Formulas C16_* over status samples (monotone ranks per real-time order, Processing inside the worker function, Closed after Wait), action property C16_Forward on the model.',
  'C17': 'Formulas C17_* (bounds of every sample, exactness at quiescence, worker pending = sum over queues), plus the FIFO Len() log checks of TraceDS.tla.',
  'C18': 'Formulas C18_* over goroutine censuses at quiescence (pool bound, idle >= 1, trimming with expiry, nothing left after Stop), model invariants C18_* and NodeOwnership.',
@@ -39,7 +39,7 @@ for p in sorted(SPEC):
                    'evidence_file': 'evidence/%s.json' % p, 'replay_cmd_template': 'python3 tools/dbg.py {path}', 'engine': 'tla-trace',
                    'level_claimed': {'category': 'model_checking', 'text': CORE + SPEC[p], 'design_ref': 'DESIGN.md sections 4-6 and 12'},
                    'level_note': NOTE,
-                   'technique': 'explicit TLA+ specification checked with TLC; TLC trace validation of real executions (Trace.tla / TraceDS.tla); TLC-evaluated property formulas over recorded traces (Obs.tla)'})
+                   'technique': 'explicit TLA+ specification checked with TLC (VarMQ.tla / MC_multi.tla / Dist.tla / QueueDS.tla); TLC trace validation of real executions (Trace.tla / TraceDist.tla / TraceDS.tla); TLC-evaluated property formulas over recorded traces (Obs.tla)'})
 checks.append({'property_id': 'C19', 'quick_cmd': 'python3 tools/check.py C19 --tier quick', 'thorough_cmd': 'python3 tools/check.py C19 --tier thorough',
                'evidence_file': 'evidence/C19.json', 'replay_cmd_template': 'python3 tools/dbg.py {path}', 'engine': 'tla-trace',
                'level_claimed': {'category': 'exploration', 'text': 'Concurrent client programs (the same seeded program families that the TLA+ checks use, i.e. the multi-goroutine clients the test suite lacks) are executed free-running on all cores under the Go race detector, with all harness logging and gating switched off so that the harness adds no synchronisation; a report that names library code is re-run alone and, when it reproduces, stated as a violation of C19_NoRace. A data race is a fact about memory accesses that a TLA+ specification does not observe: the verdict is the race detector\'s, the specification side contributes the programs.', 'design_ref': 'DESIGN.md section 6 (C19)'},
@@ -51,7 +51,7 @@ m = {'version': 1, 'setup_cmd': 'python3 tools/check.py --setup',
                'baseline_off_cmd': 'cd /repo && GOFLAGS=-mod=mod GOPROXY=off go test -json -vet=off -count=1 -timeout 25m ./...',
                'source_commits': list(reversed(hooks)), 'add_only': True},
      'engines': [{'name': 'tla-trace', 'path': 'tools/check.py', 'serves_properties': claimed,
-                  'kind_free_text': 'TLC (model checking of spec/VarMQ.tla, QueueDS.tla, MC_manager.tla; trace validation with Trace.tla / TraceDS.tla; property evaluation with Obs.tla) + Go gate-scheduler harness overlaid into /repo'}],
+                  'kind_free_text': 'TLC (model checking of spec/VarMQ.tla, MC_multi.tla, Dist.tla, QueueDS.tla, MC_manager.tla; trace validation with Trace.tla / TraceDist.tla / TraceDS.tla; property evaluation with Obs.tla) + Go gate-scheduler harness overlaid into /repo'}],
      'checks': checks, 'notes': 'DESIGN.md explains the approach; known_findings.json lists the defects found and fixed; seeded/ holds the changes used to test the checks',
      'not_applicable': [{'property_id': p['id'], 'reason': 'not claimed'} for p in props if p['id'] not in claimed]}
 json.dump(m, open(os.path.join(V, 'MANIFEST.json'), 'w'), indent=1)
